@@ -34,6 +34,62 @@ BOUNDED_ITER = ('std::ops::Range<', 'std::ops::RangeInclusive<', 'std::slice::It
 UNBOUNDED_HINT = ('RangeFrom', 'Repeat', 'Cycle', 'FromFn', 'Successors', 'RepeatWith')
 
 
+def _counter_bounded(fn, L):
+    """a loop whose every cycle passes a test `c < n` / `c <= n` (failing edge leaves the loop) and an increment of c by a
+    positive constant, with the integer n not assigned inside the loop: returns a description, else None"""
+    from ..motion import _root_local, _single_def
+    body = L['body']
+    outside = frozenset(x for x in range(fn.nb) if x not in body)
+    for b in sorted(body):
+        t = fn.blocks[b]['term']
+        if t['k'] != 'switch':
+            continue
+        for si, st in enumerate(fn.blocks[b]['stmts']):
+            if not (st['k'] == 'assign' and st['rv']['k'] == 'binop' and st['rv']['op'] in ('Lt', 'Le', 'Gt', 'Ge')):
+                continue
+            a_, b_, op = _root_local(fn, st['rv']['a']), _root_local(fn, st['rv']['b']), st['rv']['op']
+            if a_ is None or b_ is None:
+                continue
+            if op in ('Gt', 'Ge'):
+                a_, b_ = b_, a_
+            cnt, lim = a_, b_
+            if not fn.b.local_ty(cnt).startswith(('usize', 'u32', 'u64', 'i32', 'i64', 'isize')):
+                continue
+            tm = {str(v): tg for v, tg in t['targets']}
+            f_t = tm.get('0')
+            if f_t is None or f_t in body:
+                continue
+            # every cycle passes the test
+            r = fn.reachable(L['header'], stop=outside | frozenset([b]))
+            if b != L['header'] and any(src in r and src != b for (src, _d) in L['back_edges']):
+                continue
+            # the limit is not written in the loop
+            if any(e.block in body for e in fn.events(lim)):
+                continue
+            # the counter's only definition in the loop adds a positive constant, on every cycle
+            ins = [e for e in fn.events(cnt) if e.block in body and not e.path]
+            if len(ins) != 1 or ins[0].kind != 'assign':
+                continue
+            rvi = ins[0].data['rv']
+            inc = False
+            if rvi['k'] == 'binop' and rvi['op'] in ('Add', 'AddUnchecked'):
+                inc = _root_local(fn, rvi['a']) == cnt and int(rvi['b'].get('const', {}).get('ival', '0') or 0) > 0
+            elif rvi['k'] == 'use':
+                src = rvi['op'].get('move') or rvi['op'].get('copy')
+                if src is not None and len(src['p']) == 1 and isinstance(src['p'][0], dict) and src['p'][0].get('f') == 0:
+                    e2 = _single_def(fn, src['l'])
+                    if e2 is not None and e2.kind == 'assign' and e2.data['rv']['k'] == 'binop' and e2.data['rv']['op'] == 'AddWithOverflow':
+                        pa = e2.data['rv']['a'].get('move') or e2.data['rv']['a'].get('copy')
+                        inc = pa is not None and not pa['p'] and pa['l'] == cnt and int(e2.data['rv']['b'].get('const', {}).get('ival', '0') or 0) > 0
+            if not inc:
+                continue
+            r2 = fn.reachable(L['header'], stop=outside | frozenset([ins[0].block]))
+            if any(src in r2 and src != ins[0].block for (src, _d) in L['back_edges']):
+                continue
+            return 'counter %s < %s' % (fn.b.local_name(cnt) or cnt, fn.b.local_name(lim) or lim)
+    return None
+
+
 def classify_loop(ctx, fn, L):
     """returns (kind, detail) kind in 'iterator' | 'deadline' | 'unbounded'"""
     body = L['body']
@@ -68,6 +124,10 @@ def classify_loop(ctx, fn, L):
             if ity.startswith(BOUNDED_ITER):
                 return 'iterator', ity[:60]
             return 'unbounded', 'iterates over %s (not in the table of bounded iterators)' % ity[:60]
+    # ---- counter bounded:  while i < n { .. i += 1 .. }  with n not written in the loop
+    cb_ = _counter_bounded(fn, L)
+    if cb_ is not None:
+        return 'iterator', cb_
     # ---- deadline guarded
     for b in sorted(body):
         si = fn.switch_info(b)
